@@ -67,7 +67,7 @@ def main():
                     lines = [l for l in outc.split("\n") if l.startswith("VIOLATION") or l.startswith("  detail")]
                     caught[c] = {"exit": rcc, "report": lines[:3]}
             finally:
-                sh("git -C /repo checkout -- .")
+                sh("git -C /repo reset -q --hard HEAD")
         result["checks"] = caught
         out_dir = os.path.join(VERIF, "seeded", name)
         os.makedirs(out_dir, exist_ok=True)
